@@ -64,6 +64,14 @@ Monitors
                              overwrites all of them a new call must still be exact;
   alias_returned           : modifying the Point2D list returned by .vertices or the Point2D returned by .cross_section_centroid
                              must not change the voxel.
+  place_geom / place_stat  : the same cells as a grid hanging in a scene graph (parent None / World / transformed node / nested nodes;
+                             grid transform identity / translation / rotation about z, x, y / combinations; later set_active,
+                             transform and parent changes) and as a single voxel with a parent and its own transform: area,
+                             centroid, volume, total volume against the exact values and every emissivity estimate (grid API and
+                             voxel API) against the area mean over the cross-section -- none may depend on the placement;
+  gridcont                 : grids built from 10 kinds of iterables of cells (list, tuple, generator, map, iterator, zip
+                             generator, deque, dict values, object array, 3-D ndarray) x 4 kinds of cell containers: voxel
+                             count, voxel volumes in order and total volume as from the list.
 Sampling runs in a forked child so that a crash of the unchecked triangle lookup becomes a violation, not a dead worker.
 """
 import json
@@ -113,15 +121,16 @@ ASSUMPTIONS = ["polygons are simple, non-degenerate (bounds in the rule) and lie
                "the ASan pass of DESIGN.md is not part of this module"]
 ASAN_MODULES = ['cherab.tools.inversions.voxels']
 ASAN = dict(cases=400, workers=8, timecap=240)
-QUICK = dict(cases=320, workers=2, timecap=45)      # ~9 s of worker time per shard on an idle machine
+QUICK = dict(cases=300, workers=2, timecap=45)      # ~9 s of worker time per shard on an idle machine
 THOROUGH = dict(cases=60000, workers=16, timecap=600)
 # minima are reached by ~100 cases: a quick run cut short by the time cap on a loaded machine is still conclusive
-REQUIRED = {"area": 500, "centroid": 1000, "volume": 600, "volume_self": 450, "order": 150, "grid_total": 5,
-            "grid_exact": 8, "emis_const": 15, "emis_stat": 10, "emis_range": 12, "emis_inside": 20000,
-            "nearrect_stat": 100, "nearrect_inside": 20000, "nearrect_order": 6, "alias_caller": 18, "alias_unchanged": 20,
+REQUIRED = {"area": 440, "centroid": 880, "volume": 600, "volume_self": 400, "order": 150, "grid_total": 4,
+            "grid_exact": 8, "emis_const": 15, "emis_stat": 8, "emis_range": 10, "emis_inside": 20000,
+            "nearrect_stat": 100, "nearrect_inside": 20000, "nearrect_order": 6, "alias_caller": 15, "alias_unchanged": 20,
             "gridseq_total": 60, "scale_homog": 60, "emisorder_stat": 100, "emisorder_inside": 5000, "emisorder_order": 8,
             "seq_stat": 60, "seq_inside": 50000, "seq_tri": 150, "gridemis_stat": 10, "gridemis_vary": 10, "nonlin_stat": 10,
-            "hist_identity": 15, "hist_kept": 50, "hist_fresh": 50, "hist_share": 4, "hist_post": 6, "alias_returned": 12}
+            "hist_identity": 10, "hist_kept": 40, "hist_fresh": 40, "hist_share": 2, "hist_post": 6, "alias_returned": 12,
+            "place_stat": 25, "place_geom": 60, "gridcont": 15}
 
 EPS = 2.0 ** -52
 PI_CODE = 3.141592653589793
@@ -400,32 +409,100 @@ def gen_case(rng, tier):
     if u < 0.04:
         shape, P = gen_nearrect_polygon(rng)           # near-rectangle quadrilaterals also through the geometry monitors
         return dict(kind="poly", cls="nearrect:" + shape, poly=P, prim="csg", max_orderings=0)
-    if u < 0.30:
+    if u < 0.28:
         cls, P = gen_polygon(rng)
         prim = "mesh" if (rng.random() < 0.12 and _mesh_ok(P)) else "csg"
         return dict(kind="poly", cls=cls, poly=P, prim=prim, max_orderings=MAX_ORDERINGS_QUICK if tier == "quick" else 0)
-    if u < 0.35:
+    if u < 0.33:
         cls, P = gen_polygon(rng, wide=True)
         return dict(kind="poly", cls="wide:" + cls, poly=P, prim="csg", max_orderings=8 if tier == "quick" else 0)
-    if u < 0.41:
+    if u < 0.38:
         return _gen_scale(rng, tier)
-    if u < 0.46:
+    if u < 0.42:
         return _gen_grid(rng, tier)
-    if u < 0.58:
+    if u < 0.53:
         return _gen_emis(rng, tier)
-    if u < 0.67:
+    if u < 0.61:
         return _gen_emisorder(rng, tier)
-    if u < 0.73:
+    if u < 0.67:
         return _gen_nearrect(rng, tier)
-    if u < 0.79:
+    if u < 0.73:
         return _gen_alias(rng, tier)
-    if u < 0.84:
+    if u < 0.78:
         return _gen_gridseq(rng, tier)
-    if u < 0.91:
+    if u < 0.85:
         return _gen_seq(rng, tier)
-    if u < 0.96:
+    if u < 0.89:
         return _gen_gridemis(rng, tier)
-    return _gen_gridhist(rng, tier)
+    if u < 0.92:
+        return _gen_gridhist(rng, tier)
+    if u < 0.97:
+        return _gen_placement(rng, tier)
+    return _gen_gridcont(rng, tier)
+
+
+def _gen_transform(rng, ext):
+    """[[op, args...], ...] multiplied left to right; translations of the order of the cross-section's extent"""
+    k = int(rng.integers(6))
+    d = [float(x) for x in ext * rng.uniform(0.3, 3, 3) * rng.choice([-1, 1], 3)]
+    ang = float(rng.choice([90.0, 180.0, -90.0, float(rng.uniform(-180, 180))]))
+    if k == 0:
+        return []
+    if k == 1:
+        return [["translate"] + d]
+    if k == 2:
+        return [["translate", 0.0, 0.0, d[2]]]
+    if k == 3:
+        return [["rotate_z", ang]]
+    if k == 4:
+        return [[["rotate_x", "rotate_y"][int(rng.integers(2))], ang]]
+    return [["translate"] + d, [["rotate_x", "rotate_y", "rotate_z"][int(rng.integers(3))], ang]]
+
+
+def _gen_placement(rng, tier):
+    """the same cells as a free-standing grid and placed in a scene graph (parent chain / transforms / activation)"""
+    if rng.random() < 0.5:
+        cells = [gen_polygon(rng)[1] for _ in range(int(rng.integers(1, 5)))]
+    else:
+        cells = _gen_grid(rng, tier)["cells"][:int(rng.integers(1, 7))]
+    A = np.array([v for q in cells for v in q])
+    ext = float(max(np.ptp(A[:, 0]), np.ptp(A[:, 1])))
+    parent = ["none", "world", "node", "nested"][int(rng.choice(4, p=[0.1, 0.3, 0.3, 0.3]))]
+    ops = []
+    for _ in range(int(rng.integers(0, 4))):
+        k = int(rng.integers(4))
+        if k == 0:
+            ops.append(["set_active", int(rng.integers(len(cells)))])
+        elif k == 1:
+            ops.append(["set_active", "all"])
+        elif k == 2:
+            ops.append(["grid_transform", _gen_transform(rng, ext)])
+        else:
+            ops.append(["grid_parent", ["none", "world", "node", "nested"][int(rng.integers(4))]])
+    return dict(kind="placement", cls="placement:" + parent, cells=cells, parent=parent,
+                node_transforms=[_gen_transform(rng, ext), _gen_transform(rng, ext)], grid_transform=_gen_transform(rng, ext),
+                voxel_transform=_gen_transform(rng, ext), ops=ops,
+                fn=dict(a=float(rng.normal()), b=float(rng.normal()), c=float(rng.normal())),
+                N=int(rng.choice([10000, 30000])), rs_seed=int(rng.integers(1, 2 ** 61)))
+
+
+GRID_OUTER = ["list", "tuple", "generator", "map", "iterator", "zip-generator", "deque", "dict-values", "object-array",
+              "ndarray-3d"]
+GRID_INNER = ["list-of-lists", "tuple-of-tuples", "ndarray", "list-of-point2d"]
+
+
+def _gen_gridcont(rng, tier):
+    """every kind of iterable of cells the constructor accepts must give the grid the list gives"""
+    outer = GRID_OUTER[int(rng.integers(len(GRID_OUTER)))]
+    if outer == "ndarray-3d" or rng.random() < 0.4:
+        g = _gen_grid(rng, tier)
+        while g["cls"] == "grid:mixed":
+            g = _gen_grid(rng, tier)
+        cells = g["cells"][:int(rng.integers(1, 13))]
+    else:
+        cells = [gen_polygon(rng)[1] for _ in range(int(rng.integers(1, 6)))]
+    return dict(kind="gridcont", cls="gridcont:" + outer, cells=cells, outer=outer,
+                inner=GRID_INNER[int(rng.integers(len(GRID_INNER)))], active="all" if rng.random() < 0.7 else 0)
 
 
 def _local_frame(cells):
@@ -929,6 +1006,18 @@ def fixed_cases(tier):
         out.append(dict(kind="gridemis", cls=ft, cells=three, prim="csg", gs=gs, K=6000 // gs, Nv=2000, rs_seed=40 + gs,
                         f=dict(r0=2.5, z0=0.5, L=2.0, coef=_nonlin_coeffs(np.random.default_rng(5), ft))))
     out += [
+        dict(kind="placement", cls="placement:world", cells=three, parent="world", node_transforms=[[], []],
+             grid_transform=[["translate", 0.0, 0.0, 0.4]], voxel_transform=[["rotate_z", 90.0]],
+             ops=[["set_active", 1], ["set_active", "all"]], fn=dict(a=0.0, b=1.0, c=1.0), N=30000, rs_seed=61),
+        dict(kind="placement", cls="placement:nested", cells=[lshape, dart], parent="nested",
+             node_transforms=[[["translate", 1.0, 2.0, 3.0]], [["rotate_x", 30.0]]], grid_transform=[["rotate_z", 90.0]],
+             voxel_transform=[["translate", 0.5, 0.0, -0.7]], ops=[["grid_parent", "none"], ["grid_transform", [["rotate_y", 45.0]]]],
+             fn=dict(a=0.2, b=-1.0, c=0.5), N=30000, rs_seed=62),
+    ]
+    for ou in GRID_OUTER:
+        out.append(dict(kind="gridcont", cls="gridcont:" + ou, cells=cells[:5], outer=ou,
+                        inner=GRID_INNER[len(ou) % len(GRID_INNER)], active="all" if len(ou) % 2 else 0))
+    out += [
         dict(kind="gridhist", cls="gridhist", grids=[three, cells[:4]], rs_seed=51, calls=[
             dict(g=0, f=dict(type="const", a=3.0), gs=10), dict(g=0, f=dict(type="const", a=7.0), gs=10),
             dict(g=1, f=dict(type="const", a=0.1), gs=1), dict(g=0, f=dict(type="linear", a=0.0, b=1.0, c=1.0), gs=20000),
@@ -1086,6 +1175,10 @@ def run_case(case, ctx):
         return _run_gridemis(case, ctx)
     if kind == "gridhist":
         return _run_gridhist(case, ctx)
+    if kind == "placement":
+        return _run_placement(case, ctx)
+    if kind == "gridcont":
+        return _run_gridcont(case, ctx)
     raise ValueError("unknown case kind %r" % kind)
 
 
@@ -2280,3 +2373,204 @@ def _run_gridhist(case, ctx):
         ctx.close(np.array(vec), 7.25, "emissivity:grid:result-wrong-after-caller-wrote-into-earlier-results",
                   "after the caller overwrote the vectors returned by earlier calls, emissivities_from_function of a constant "
                   "is not the constant", rtol=10 * EPS, monitor="hist_post", grid=g, overwritten=r["wrote"])
+
+
+# ------------------------------------------------------------------------------------------------
+# scene-graph placement: nothing the property speaks about depends on where the grid / voxel hangs in a scene
+# ------------------------------------------------------------------------------------------------
+
+def _build_transform(spec):
+    from raysect.core import translate, rotate_x, rotate_y, rotate_z, AffineMatrix3D
+    T = AffineMatrix3D()
+    for op in spec:
+        if op[0] == "translate":
+            T = T * translate(float(op[1]), float(op[2]), float(op[3]))
+        else:
+            T = T * {"rotate_x": rotate_x, "rotate_y": rotate_y, "rotate_z": rotate_z}[op[0]](float(op[1]))
+    return T
+
+
+def _run_placement(case, ctx):
+    cells = [[[float(a), float(b)] for a, b in q] for q in case["cells"]]
+    ctx.cls(case.get("cls", "placement"))
+    for q in cells:
+        if not _certified(q, ctx):
+            return
+    a, b, c = float(case["fn"]["a"]), float(case["fn"]["b"]), float(case["fn"]["c"])
+    N = int(case["N"])
+    n = len(cells)
+
+    def job():
+        from raysect.core import Node
+        from raysect.core.math.random import seed
+        from raysect.core.math.function.float import Arg3D
+        from raysect.optical import World
+        from cherab.tools.inversions import ToroidalVoxelGrid, AxisymmetricVoxel
+        fnat = a + b * Arg3D('x') + c * Arg3D('z')
+        world = World()
+        n1 = Node(parent=world, transform=_build_transform(case["node_transforms"][0]))
+        n2 = Node(parent=n1, transform=_build_transform(case["node_transforms"][1]))
+        where = {"none": None, "world": world, "node": n1, "nested": n2}
+        seed(int(case["rs_seed"]))
+        rounds = []
+
+        def observe(tag, grid):
+            geo = []
+            for v in grid:
+                cc = v.cross_section_centroid
+                geo.append([float(v.cross_sectional_area), float(cc.x), float(cc.y), float(v.volume)])
+            return dict(tag=tag, geo=geo, total=float(grid.total_volume), count=len(grid),
+                        grid_api=[float(x) for x in grid.emissivities_from_function(fnat, N)],
+                        voxel_api=[float(v.emissivity_from_function(fnat, N)) for v in grid])
+        try:
+            grid = ToroidalVoxelGrid(cells, parent=where[case["parent"]], transform=_build_transform(case["grid_transform"]))
+            rounds.append(observe("construction", grid))
+            for op in case["ops"]:
+                if op[0] == "set_active":
+                    grid.set_active(op[1] if op[1] == "all" else int(op[1]))
+                    tag = "set_active-all" if op[1] == "all" else "set_active-int"
+                elif op[0] == "grid_transform":
+                    grid.transform = _build_transform(op[1])
+                    tag = "grid-transform-change"
+                else:
+                    grid.parent = where[op[1]]
+                    tag = "grid-parent-change"
+                rounds.append(observe(tag, grid))
+            v = AxisymmetricVoxel(cells[0], parent=where[case["parent"]] if case["parent"] != "none" else n2)
+            v.transform = _build_transform(case["voxel_transform"])
+            cc = v.cross_section_centroid
+            alone = dict(geo=[float(v.cross_sectional_area), float(cc.x), float(cc.y), float(v.volume)],
+                         est=float(v.emissivity_from_function(fnat, N)))
+        except Exception as e:
+            raise _wrap_target(e)
+        return dict(rounds=rounds, alone=alone)
+
+    out = _in_child(job)
+    if "signal" in out:
+        ctx.viol("placement:sampler-crash", "child died with signal %d while sampling a grid placed in a scene graph" % out["signal"])
+        return
+    if "exc" in out:
+        _report_child_exception(out, ctx, "placement")
+        return
+    exs = [exact_moments(q) for q in cells]
+    tbs = [rounding_bounds(q, ex) for q, ex in zip(cells, exs)]
+    want_geo = np.array([[float(ex["A"]), float(ex["cx"]), float(ex["cy"]), tb["volume"]] for ex, tb in zip(exs, tbs)])
+    tol_geo = np.array([[tb["A"], tb["cx"], tb["cy"], tb["vol"]] for tb in tbs])
+    want_tot = math.fsum(tb["volume"] for tb in tbs)
+    tol_tot = float(sum(tb["vol"] for tb in tbs)) + (n + 4) * EPS * want_tot
+    stats = []
+    for q, ex in zip(cells, exs):
+        V = np.asarray(q, dtype=float)
+        fv = a + b * V[:, 0] + c * V[:, 1]
+        var = b * b * float(ex["vxx"]) + c * c * float(ex["vyy"]) + 2 * b * c * float(ex["vxy"])
+        sigma = math.sqrt(max(var, 0.0))
+        stats.append((a + b * float(ex["cx"]) + c * float(ex["cy"]), sigma,
+                      _bernstein(sigma, float(fv.max() - fv.min()), N) + max(N, 64) * EPS * float(np.abs(fv).max() + abs(a))))
+    ctx.nontrivial()
+    base = dict(parent=case["parent"], grid_transform=case["grid_transform"], node_transforms=case["node_transforms"])
+    for r in out["ok"]["rounds"]:
+        tag = r["tag"]
+        ctx.cls("placement-after:" + tag)
+        if not ctx.check(r["count"] == n and len(r["geo"]) == n, "placement:voxel-count:" + tag,
+                         "a grid placed in a scene graph does not hold one voxel per cell", monitor="place_geom", **base):
+            continue
+        ctx.close(np.array(r["geo"]), want_geo, "placement:area-centroid-volume:" + tag,
+                  "area / centroid / volume of the voxels of a grid placed in a scene graph (parent chain, transforms, "
+                  "activation state) differ from the true values of the cross-sections", atol=tol_geo, monitor="place_geom",
+                  after=tag, **base)
+        ctx.close(r["total"], want_tot, "placement:total-volume:" + tag,
+                  "total_volume of a grid placed in a scene graph differs from the sum of the true voxel volumes",
+                  atol=tol_tot, monitor="place_geom", after=tag, **base)
+        for api in ("grid_api", "voxel_api"):
+            for i, m in enumerate(r[api]):
+                mu, sigma, tol = stats[i]
+                if sigma > 0:
+                    ctx.close(m, mu, "placement:emissivity-biased:%s:%s" % (api.replace("_", "-"), tag),
+                              "the sampled mean emissivity of a voxel whose grid is placed in a scene graph (parent chain, "
+                              "transforms, activation state) deviates from the area mean of the function over the cross-section "
+                              "beyond the p=2.6e-12 bound: the estimate depends on scene placement", atol=tol,
+                              monitor="place_stat", voxel=i, after=tag, **base)
+    al = out["ok"]["alone"]
+    ctx.close(np.array(al["geo"]), want_geo[0], "placement:area-centroid-volume:standalone-voxel",
+              "area / centroid / volume of a voxel with a parent node and its own transform differ from the true values",
+              atol=tol_geo[0], monitor="place_geom", voxel_transform=case["voxel_transform"], **base)
+    mu, sigma, tol = stats[0]
+    if sigma > 0:
+        ctx.close(al["est"], mu, "placement:emissivity-biased:standalone-voxel",
+                  "the sampled mean emissivity of a voxel with a parent node and its own transform deviates from the area mean "
+                  "over the cross-section beyond the p=2.6e-12 bound: the estimate depends on scene placement", atol=tol,
+                  monitor="place_stat", voxel_transform=case["voxel_transform"], **base)
+
+
+# ------------------------------------------------------------------------------------------------
+# kinds of iterables accepted for the cells of a grid
+# ------------------------------------------------------------------------------------------------
+
+def _cell_container(q, inner):
+    from raysect.core import Point2D
+    if inner == "tuple-of-tuples":
+        return tuple((x, y) for x, y in q)
+    if inner == "ndarray":
+        return np.array(q, dtype=float)
+    if inner == "list-of-point2d":
+        return [Point2D(x, y) for x, y in q]
+    return [[x, y] for x, y in q]
+
+
+def _cells_container(cells, outer, inner):
+    import collections
+    items = [_cell_container(q, inner) for q in cells]
+    if outer == "list":
+        return items
+    if outer == "tuple":
+        return tuple(items)
+    if outer == "generator":
+        return (it for it in items)
+    if outer == "map":
+        return map(lambda it: it, items)
+    if outer == "iterator":
+        return iter(items)
+    if outer == "zip-generator":
+        return (it for it, _ in zip(items, range(len(items))))
+    if outer == "deque":
+        return collections.deque(items)
+    if outer == "dict-values":
+        return dict(enumerate(items)).values()
+    if outer == "object-array":
+        arr = np.empty(len(items), dtype=object)
+        for i, it in enumerate(items):
+            arr[i] = it
+        return arr
+    if outer == "ndarray-3d":
+        return np.array(cells, dtype=float)
+    raise ValueError(outer)
+
+
+def _run_gridcont(case, ctx):
+    from cherab.tools.inversions import ToroidalVoxelGrid
+    cells = [[[float(a), float(b)] for a, b in q] for q in case["cells"]]
+    outer, inner = case["outer"], case["inner"]
+    ctx.cls(case.get("cls", "gridcont:" + outer))
+    ctx.cls("gridcont-inner:" + inner)
+    for q in cells:
+        if not _certified(q, ctx):
+            return
+    if outer == "ndarray-3d" and len(set(len(q) for q in cells)) != 1:
+        raise RuntimeError("C17 harness: ndarray-3d needs equal vertex counts")
+    n = len(cells)
+    act = case.get("active", "all")
+    grid = ToroidalVoxelGrid(_cells_container(cells, outer, inner), active=act if act == "all" else int(act))
+    ctx.nontrivial()
+    det = dict(outer=outer, inner=inner, n_cells=n)
+    ok = ctx.check(len(grid) == n and grid.count == n, "grid:container:voxel-count:" + outer,
+                   "a grid built from this kind of iterable of cells does not hold one voxel per cell", monitor="gridcont",
+                   got=len(grid), **det)
+    tbs = [rounding_bounds(q, exact_moments(q)) for q in cells]
+    want_tot = math.fsum(tb["volume"] for tb in tbs)
+    ctx.close(grid.total_volume, want_tot, "grid:container:total-volume:" + outer,
+              "total_volume of a grid built from this kind of iterable of cells differs from the sum of the true voxel volumes",
+              atol=float(sum(tb["vol"] for tb in tbs)) + (n + 4) * EPS * want_tot, monitor="gridcont", **det)
+    if ok:
+        ctx.close(np.array([v.volume for v in grid]), np.array([tb["volume"] for tb in tbs]), "grid:container:voxel-volume:" + outer,
+                  "voxel volumes of a grid built from this kind of iterable of cells differ from the true volumes (order or "
+                  "content of the cells changed)", atol=np.array([tb["vol"] for tb in tbs]), monitor="gridcont", **det)
